@@ -226,9 +226,43 @@ def fullRequest : P String := do
   | [] => pure (boolStr (decide (a = b)))
   | _ => pure "false"
 
+/-! ### value-level model of `Append` -/
+
+/-- cells are tokens: the zero value is the token `Z` (printed per kind as that kind's zero vector), index cells are
+    decimal numbers -/
+def EV : Env String :=
+  ⟨"Z", fun n x => match x.toNat? with | some v => toString (v + n) | none => x, toString, fun _ need => need⟩
+
+def zeroOfKind (k : Nat) : String := ",".intercalate (List.replicate k "0000000000000000")
+
+def showObs (o : MeshObs String String) : String :=
+  let head := ["T", toString o.topo, "I", toString o.indices.length] ++ o.indices ++
+    ["M", toString o.materials.length] ++ o.materials
+  let attrs := (o.attrs.zipIdx).flatMap fun (es, k) =>
+    (es.mergeSort (fun a b => !(decide (b.1 < a.1)))).flatMap fun e =>
+      ["A", toString (k + 1), e.1, toString e.2.length] ++ e.2.map fun c => if c == "Z" then zeroOfKind (k + 1) else c
+  " ".intercalate (head ++ attrs)
+
+def newMeshOf (o : MeshObs String String) : Op String String :=
+  .newMesh o.topo o.indices 0 o.materials 0 (o.attrs.map fun es => es.map fun e => (e.1, e.2, 0))
+
+def appendRequest : P String := do
+  let a ← obsP
+  expect "|"
+  let b ← obsP
+  let s := run EV ⟨Heap.empty, []⟩ [newMeshOf a, newMeshOf b, .append 0 1]
+  match s.pool[2]? with
+  | some r => pure (showObs (obs s.heap r))
+  | none => pure "panic"
+
 def handle (op : String) (args : List String) : Option String :=
   match op with
   | "c01.shape" => (shapeRequest.run args).map (·.1)
+  | "c01.append" => (appendRequest.run args).map (·.1)
+  | "c01.holds.rederive" =>
+    match args with
+    | [_, _, d0, d1] => some (boolStr (d0 == d1))
+    | _ => none
   | "c01.holds.immutable" =>
     match args with
     | [_, _, _, d0, d1] => some (boolStr (d0 == d1))
